@@ -15,6 +15,10 @@ claimed = {
    text="Deductive proof per combinator that the real Evaluate/constructor code denotes the named operation, for all parameters and points: blend functions (RoundMin, ChamferMin, ExpMin, PolyMin/PolyMax) never remove material, are symmetric and obey the k/4 fillet bound; M22/M33/M44.Inverse are two-sided inverses; rotation constructors are rigid. Scope grows with the contract file; sentences not under contract are listed in the evidence as not_decided.",
    design_ref="8.2",
    technique="contract-based deductive verification: per-path VCs from go/ssa symbolic execution with abstract (uninterpreted) operands, discharged by SMT (QF_NRA + axiomatised exp/log/trig)"),
+ "C03": dict(
+   text="Deductive proof that the real Evaluate of sphere, circle, (rounded) box 2D/3D, line, (rounded) cylinder and capsule equals the independent closed-form Euclidean signed distance at every point, and that union/intersection/difference (plain and with the polynomial blend), cut, offset, shell, elongate, plain extrusion, full revolution and uniform scale preserve the two-point 1-Lipschitz property of abstract operands. EXACT => LIP for primitives, the cone, polygons, rotate-copy/union, arrays, rounded extrusion and partial revolution are not yet under contract (not_decided).",
+   design_ref="8.3",
+   technique="contract-based deductive verification: per-path VCs against independent spec functions; two-point Lipschitz contracts with quantified operand assumptions instantiated at evaluation points; lemma library (Lagrange identity, sup-norm Lipschitz of the polynomial blend) proved in the same run"),
  "C10": dict(
    text="Frame contract 'assigns nothing' proved for every Evaluate/BoundingBox method of every type implementing SDF2/SDF3 (found mechanically from go/types), transitively through all module callees and function-valued fields, with a lock-discipline alternative (writes and all accesses to the written fields only under the receiver's mutex). Race freedom then follows from the Go memory model (reads of memory nobody writes do not race); interleavings themselves are not explored.",
    design_ref="8.10",
